@@ -218,6 +218,10 @@ pub struct Workload {
     /// accepted fills are concerned.
     #[serde(default, skip_serializing_if = "Vec::is_empty")]
     pub probe_reads: Vec<usize>,
+    /// `block_size` field of the configuration when it differs from the block size passed to the entry
+    /// point (the argument overrides the field; both are legal and independent)
+    #[serde(default, skip_serializing_if = "Option::is_none")]
+    pub cfg_block: Option<usize>,
     /// the source has a history: the caller reads this many blocks from it (into a scratch buffer) before
     /// handing it to the encoder; what the encoder consumes starts after them, while the source's
     /// `len_hint` (if any) keeps stating its whole length, as `MemSource` does.
@@ -239,6 +243,10 @@ pub struct PreCall {
     pub par: bool,
     /// the observed (last) call runs in single-thread mode instead of multi-thread mode
     pub last_single: bool,
+    /// the other call is not made BEFORE the observed one but CONCURRENTLY with it, by a second caller
+    /// thread of the same process (two encoders alive at the same time)
+    #[serde(default, skip_serializing_if = "std::ops::Not::not")]
+    pub concurrent: bool,
     pub derived: String,
 }
 
@@ -250,10 +258,16 @@ pub struct ReadPlan {
 
 pub const BLOCKS_QUICK: &[usize] = &[32, 33, 48, 64, 65, 100, 128, 192, 255, 256, 257, 576];
 pub const BLOCKS_THOROUGH: &[usize] = &[32, 33, 48, 64, 65, 100, 128, 192, 255, 256, 257, 576, 1152, 4096];
-pub const RATES: &[usize] = &[1, 8000, 16000, 22050, 44100, 48000, 95800, 96000];
+// table rates, and rates of every immediate coding class of the frame header: kHz (8 bit), Hz (16 bit), tens of Hz (16 bit)
+pub const RATES: &[usize] = &[1, 8000, 16000, 22050, 44100, 48000, 95800, 96000, 11000, 12000, 64000, 1000, 12345, 65535, 65540, 88210, 32000, 88200];
 pub const BITS: &[usize] = &[8, 12, 16, 20, 24];
 
 impl Workload {
+    /// The `block_size` field of the configuration handed to the entry point.
+    pub fn config_block(&self) -> usize {
+        self.cfg_block.unwrap_or(self.block)
+    }
+
     pub fn total_samples(&self) -> usize {
         self.nfull * self.block + self.residue
     }
@@ -457,6 +471,7 @@ pub fn gen(purpose: Purpose, tier: Tier, seed: u64, index: u64) -> Workload {
         faults: vec![],
         hashq_cap: *r.pick(&[16usize, 16, 1, 2, 4]),
         probe_reads: vec![],
+        cfg_block: None,
         pre_reads: 0,
         synthetic_silence: false,
         pre: None,
@@ -537,6 +552,10 @@ pub fn gen(purpose: Purpose, tier: Tier, seed: u64, index: u64) -> Workload {
             }
         }
         _ => {}
+    }
+    // the configuration's own block_size field is independent of the argument the entry point is called with
+    if r.chance(0.1) {
+        w.cfg_block = Some(*r.pick(&[32usize, 192, 576, 1152, 4096, 4608, 32767]));
     }
     // Length classes that only a handful of runs can afford, placed at fixed indices so that every batch
     // of >= 2500 workloads contains them:
@@ -772,6 +791,7 @@ pub fn fresh_small(r: &mut Rng) -> Workload {
         faults: vec![],
         hashq_cap: 16,
         probe_reads: vec![],
+        cfg_block: None,
         pre_reads: 0,
         synthetic_silence: false,
         pre: None,
@@ -783,8 +803,27 @@ pub fn fresh_small(r: &mut Rng) -> Workload {
     w
 }
 
-/// One "neighbouring" change of the arguments of an earlier call.
+/// One "neighbouring" change of the arguments of an earlier call - or, a quarter of the time, two of them
+/// at once (keys, hashes and caches built from several fields may only collide when two fields move together).
 pub fn neighbour(w0: &Workload, r: &mut Rng) -> (Workload, String) {
+    let (w1, t1) = neighbour_one(w0, r);
+    if r.chance(0.25) {
+        let (w2, t2) = neighbour_one(&w1, r);
+        if t2 != "same" && t2 != t1 {
+            let mut w2 = w2;
+            // the second change must not undo what a failing-source change of the first one added
+            if w2.faults.is_empty() {
+                w2.faults = w1.faults.clone();
+                let nreads = w2.plan_reads().len();
+                w2.faults.retain(|f| f.k() <= nreads);
+            }
+            return (w2, format!("{t1}+{t2}"));
+        }
+    }
+    (w1, t1)
+}
+
+fn neighbour_one(w0: &Workload, r: &mut Rng) -> (Workload, String) {
     let mut w = w0.clone();
     w.faults.clear();
     let tag = match r.below(20) {
@@ -839,8 +878,23 @@ pub fn neighbour(w0: &Workload, r: &mut Rng) -> (Workload, String) {
                 Some(b) => f32::from_bits(b),
                 None => 0.1 + 0.8 * r.f32_unit(),
             };
-            let d = 1 + r.below(300) as u32;
-            let nb = if r.chance(0.5) { base.to_bits().wrapping_add(d) } else { base.to_bits().wrapping_sub(d) };
+            // bit-level neighbours: a small uniform distance, or a structured one (a power of two, or the
+            // sum of two - what XOR-ing small integers into the bit pattern produces), added, subtracted or XOR-ed
+            let d = if r.chance(0.5) {
+                1 + r.below(300) as u32
+            } else {
+                let a = 1u32 << r.below(13);
+                if r.chance(0.3) {
+                    a | (1u32 << r.below(13))
+                } else {
+                    a
+                }
+            };
+            let nb = match r.below(3) {
+                0 => base.to_bits().wrapping_add(d),
+                1 => base.to_bits().wrapping_sub(d),
+                _ => base.to_bits() ^ d,
+            };
             let a = f32::from_bits(nb);
             if a.is_finite() && (0.0..=1.0).contains(&a) {
                 w.cfg.tukey_alpha_bits = Some(nb);
